@@ -692,8 +692,9 @@ def wrapper_fns(name):
                     (r'^operator->\|std::unique_ptr<nano::generator_t>::pointer \(\) const', '{&0}'),
                     (r'^operator!=\|.*__normal_iterator', '({0} != {1})'), (r'^operator\+\+\|.*__normal_iterator', '(++{0})'),
                     (r'^operator\*\|.*__normal_iterator', '(*nv_gens_at(&self->m_generators, {0}))'),
+                    (r'^operator\[\]\|std::vector<std::unique_ptr<nano::generator_t>>::const_reference \(std::vector::size_type\) const', '(*nv_gens_at({&0}, (int64_t)({1})))'),   # an index loop
                     (r'^ctor\|nano::tensor_t<nano::tensor_carray_storage_t, long, 1>\|', '{0}')]
-    members = SIZE1 + [(r'^byfeature\|nano::dataset_t', '(*dataset_byfeature({self}, {0}))!^'),
+    members = SIZE1 + [(r'^size\|' + gv, '{*self}.size'), (r'^byfeature\|nano::dataset_t', '(*dataset_byfeature({self}, {0}))!^'),
                        (r'^begin\|' + gv, 'nv_gens_begin'), (r'^end\|' + gv, 'nv_gens_end'),
                        (r'^drop\|nano::generator_t \*', 'nv_generator_drop'), (r'^shuffle\|nano::generator_t \*', 'nv_generator_shuffle'),
                        (r'^shuffled\|nano::generator_t \*', 'nv_generator_shuffled'),
